@@ -38,7 +38,7 @@ def adversarial_pair(rng, tf):
     kind = rng.choice(("substring", "substring", "helper_sma", "helper_stdev", "helper_tr", "tf_suffix",
                        "override_prefix", "suffix"))
     if kind == "substring":
-        cls = rng.choice(("SMA", "EMA", "WMA", "RMA", "RSI", "ATR", "VWMA"))
+        cls = rng.choice(("SMA", "EMA", "WMA", "RMA", "RSI", "ATR", "VWMA", "StandardDeviation", "VWAP", "STOCH"))
         a = _spec(cls, {"period": p})
         b = _spec(cls, {"period": p * 10 + rng.randint(0, 9)})
         return a, b, kind
@@ -58,8 +58,11 @@ def adversarial_pair(rng, tf):
     if kind == "override_prefix":
         return (_spec("EMA", {"period": p}, fullname_override="X"),
                 _spec("SMA", {"period": p + 1}, fullname_override="X_2"), "override_prefix")
-    cls = rng.choice(("SMA", "EMA", "RSI"))
-    return _spec(cls, {"period": p}), _spec(cls, {"period": p}, name_suffix="b"), "suffix"
+    cls = rng.choice(("SMA", "EMA", "RSI", "StandardDeviation", "VWAP", "STOCH", "TSI", "Supertrend", "ADX", "MACD"))
+    params = {"period": p} if cls != "MACD" else {"fast_period": 2, "slow_period": 2 + p, "signal_period": 2}
+    if cls == "ADX":
+        params = {"period": min(p, 6)}
+    return (_spec(cls, params), _spec(cls, params, name_suffix=rng.choice(("b", "high", "2"))), "suffix")
 
 
 def plan(seed, subbatch):
@@ -143,16 +146,19 @@ def execute(trace, ctx=None):
                 if any(v is not None for v in want):
                     compared_reading = True
 
+        phase = "shared"
         for i, op in enumerate(trace["ops"]):
             run.op_index = i
             kind = op["op"]
             try:
                 if kind == "new":
                     rows = op.get("preload") or []
-                    for mc, _o in worlds:
-                        mc.new(rows)
+                    phase = "solo"
                     for s in solos:
                         s.new(rows)
+                    phase = "shared"
+                    for mc, _o in worlds:
+                        mc.new(rows)
                 elif worlds[0][0].subject is None:
                     continue
                 elif kind == "append":
@@ -163,11 +169,13 @@ def execute(trace, ctx=None):
                     n_appends += 1 if rows else 0
                     if rows:
                         stale.clear()   # Hexital.append recalculates every registered member
-                    for mc, _o in worlds:
-                        mc.append(rows)
+                    phase = "solo"
                     for j, s in enumerate(solos):
                         if j not in removed:
                             s.append(rows)
+                    phase = "shared"
+                    for mc, _o in worlds:
+                        mc.append(rows)
                 elif kind in ("purge", "recalculate", "remove", "calculate"):
                     t = op.get("target", 0) % k
                     if kind != "calculate" and t in removed:
@@ -176,6 +184,12 @@ def execute(trace, ctx=None):
                     if kind == "remove" and len(removed) >= k - 1:
                         run.stats["guard_skip:last_member"] += 1
                         continue
+                    phase = "solo"
+                    if kind == "calculate":
+                        for j, s in enumerate(solos):
+                            if j not in removed:
+                                s.calculate(None)
+                    phase = "shared"
                     for w, (mc, order) in enumerate(worlds):
                         before = {j: _column(slot_of(w, j)) for j in range(k) if j != t and j not in removed}
                         if kind == "calculate":
@@ -198,9 +212,6 @@ def execute(trace, ctx=None):
                                                        "before": col[x], "after": now[x], "members": names})
                     if kind == "calculate":
                         stale.clear()
-                        for j, s in enumerate(solos):
-                            if j not in removed:
-                                s.calculate(None)
                     elif kind == "remove":
                         removed.add(t)
                     elif kind == "purge":
@@ -215,15 +226,25 @@ def execute(trace, ctx=None):
                 elif kind != "check":
                     continue
             except LibError as e:
-                raise Discard("library-raised:" + e.type)
+                if phase == "solo":
+                    raise Discard("solo-twin-raised:" + e.type)   # the member fails on its own: C09's subject
+                raise Violation("raises-only-with-other-member-present", cfg["relation"], e.site,
+                                {"error": repr(e.exc), "op": kind, "members": names})
             if kind in ("new", "append", "check"):
                 if kind == "check":
                     stale.clear()
-                    for mc, _o in worlds:
-                        mc.calculate(None)
-                    for j, s in enumerate(solos):
-                        if j not in removed:
-                            s.calculate(None)
+                    try:
+                        for j, s in enumerate(solos):
+                            if j not in removed:
+                                s.calculate(None)
+                    except LibError as e:
+                        raise Discard("solo-twin-raised:" + e.type)
+                    try:
+                        for mc, _o in worlds:
+                            mc.calculate(None)
+                    except LibError as e:
+                        raise Violation("raises-only-with-other-member-present", cfg["relation"], e.site,
+                                        {"error": repr(e.exc), "op": kind, "members": names})
                 # after an append every registered member has been recalculated by Hexital.append
                 check_against_solo(kind)
             run.observe(kind, [len(_column(slot_of(0, j))) for j in range(k) if j not in removed])
